@@ -330,15 +330,17 @@ def _removal_expr(body, side, cname, kname):
 def validity_relations(ctx):
     """(member, is_all_permanent) -> relation(earlier, later) accepted by get_valid_idx_combinations."""
     fn = ctx.fn(f'{CCON}:get_valid_idx_combinations')
-    chain = find_chain(fn, lambda t: 'ChoiceConstraintType' in norm(t))
-    if chain is None:
+    region = find_region(fn, lambda t: 'ChoiceConstraintType' in norm(t))
+    if region is None:
         raise AnalysisError('get_valid_idx_combinations: dispatch chain not found')
     flag = [p for p in fn.params if 'permanent' in p]
     flag = flag[0] if flag else 'is_all_permanent'
     out = {}
     for m in cct_members(ctx.prog):
         for perm in (False, True):
-            body = chain_branch(chain, m, {flag: perm})
+            # the statements of the dispatch region selected for the member (if/elif chain, guard clauses with early
+            # return, or a mixture); what follows the region's dispatching ifs is shared and ignored here
+            body = _select([x for x in region if isinstance(x, ast.If)], m, {flag: perm})
             out[(m, perm)] = _checker_relation(fn, body, m, {flag: perm})
     return fn, out
 
@@ -387,8 +389,79 @@ def _columnwise_relation(fn, body):
     return None
 
 
+def _predicate_relation(h, member, hfl):
+    """Relation (earlier <rel> later) kept by a row predicate function: adjacent elements compared through shifted
+    views (`x[:-1]` / `x[1:]`, directly, through locals, or paired by zip), all elements compared with the first."""
+    stmts = _select(list(h.node.body), member, hfl)
+    role = {}
+    for a in stmts:
+        if isinstance(a, ast.Assign):
+            tg, vs = a.targets[0], a.value
+            pairs = list(zip(tg.elts, vs.elts)) if isinstance(tg, ast.Tuple) and isinstance(vs, ast.Tuple) \
+                else [(tg, vs)]
+            for t_, v_ in pairs:
+                if isinstance(t_, ast.Name) and isinstance(v_, ast.Subscript):
+                    sl = norm(v_.slice)
+                    if sl == ':-1':
+                        role[t_.id] = 'earlier'
+                    elif sl == '1:':
+                        role[t_.id] = 'later'
+
+    def side(e, extra):
+        if isinstance(e, ast.Name):
+            return extra.get(e.id) or role.get(e.id)
+        if isinstance(e, ast.Subscript):
+            return {':-1': 'earlier', '1:': 'later', '0': 'first'}.get(norm(e.slice))
+        return None
+    inv = {ast.Lt: ast.GtE, ast.LtE: ast.Gt, ast.Gt: ast.LtE, ast.GtE: ast.Lt, ast.Eq: ast.NotEq, ast.NotEq: ast.Eq}
+    for r in stmts:
+        if not (isinstance(r, ast.Return) and r.value is not None):
+            continue
+        v, neg = r.value, False
+        if isinstance(v, ast.Call) and isinstance(v.func, ast.Name) and v.func.id == 'bool' and len(v.args) == 1:
+            v = v.args[0]
+        if isinstance(v, ast.UnaryOp) and isinstance(v.op, ast.Not):
+            v, neg = v.operand, True
+        if not (isinstance(v, ast.Call) and call_name(v) in ('any', 'all') and len(v.args) == 1):
+            return None
+        arg, extra = v.args[0], {}
+        if isinstance(arg, (ast.GeneratorExp, ast.ListComp)) and len(arg.generators) == 1:
+            g = arg.generators[0]
+            if isinstance(g.iter, ast.Call) and call_name(g.iter) == 'zip' and isinstance(g.target, ast.Tuple) and \
+                    len(g.target.elts) == len(g.iter.args) == 2:
+                for t_, a_ in zip(g.target.elts, g.iter.args):
+                    sd = side(a_, {})
+                    if isinstance(t_, ast.Name) and sd:
+                        extra[t_.id] = sd
+            arg = arg.elt
+        if not (isinstance(arg, ast.Compare) and len(arg.ops) == 1):
+            return None
+        l, rr = side(arg.left, extra), side(arg.comparators[0], extra)
+        op = type(arg.ops[0])
+        if {l, rr} == {'later', 'first'}:
+            # every other element compared with the first one
+            if call_name(v) == 'all' and not neg and op is ast.Eq:
+                return '='
+            raise AnalysisError(f'A14: unrecognised row predicate `{norm(r.value)}`')
+        if {l, rr} != {'earlier', 'later'}:
+            raise AnalysisError(f'A14: unrecognised row comparison `{norm(arg)}`')
+        if call_name(v) == 'any' and neg:
+            op = inv[op]            # rejected when the comparison holds somewhere
+        elif call_name(v) == 'all' and not neg:
+            pass                    # kept when it holds everywhere
+        else:
+            raise AnalysisError(f'A14: unrecognised row predicate `{norm(r.value)}`')
+        if l == 'later':
+            kept = {ast.GtE: '<=', ast.Gt: '<', ast.LtE: '>=', ast.Lt: '>', ast.NotEq: '!=', ast.Eq: '='}
+        else:
+            kept = {ast.LtE: '<=', ast.Lt: '<', ast.GtE: '>=', ast.Gt: '>', ast.NotEq: '!=', ast.Eq: '='}
+        return kept.get(op, '?')
+    return None
+
+
 def _flagged_row_predicate(fn, body, member, flags):
-    """Relation kept by `lambda row: helper(row, flag=<local bool>)` for this member / flag assignment, else None."""
+    """Relation kept by a row predicate chosen in the branch for this member / flag assignment: `lambda row:
+    helper(row, flag=<local bool>)`, or `is_valid = <predicate function>` / `= A if <local bool> else B`; else None."""
     if member is None:
         return None
     fl = dict(flags)
@@ -398,12 +471,28 @@ def _flagged_row_predicate(fn, body, member, flags):
                 fl[st.targets[0].id] = bool(_eval_chain_test(st.value, member, fl))
             except AnalysisError:
                 pass
+
+    def module_fn(name):
+        return fn.module.functions.get(name) or fn.nested.get(name)
     for st in body:
+        # (ii) a predicate function selected by assignment
+        if isinstance(st, ast.Assign) and isinstance(st.targets[0], ast.Name):
+            v = st.value
+            if isinstance(v, ast.IfExp):
+                try:
+                    v = v.body if _eval_chain_test(v.test, member, fl) else v.orelse
+                except AnalysisError:
+                    v = None
+            if isinstance(v, ast.Name) and module_fn(v.id) is not None and len(module_fn(v.id).params) == 1:
+                r = _predicate_relation(module_fn(v.id), member, {})
+                if r is not None:
+                    return r
+        # (i) lambda wrapping a helper with a strictness flag
         for lam in ast.walk(st):
             if not (isinstance(lam, ast.Lambda) and isinstance(lam.body, ast.Call) and
                     isinstance(lam.body.func, ast.Name)):
                 continue
-            h = fn.module.functions.get(lam.body.func.id) or fn.nested.get(lam.body.func.id)
+            h = module_fn(lam.body.func.id)
             if h is None:
                 continue
             c = lam.body
@@ -414,55 +503,9 @@ def _flagged_row_predicate(fn, body, member, flags):
                     hfl[q] = fl[a.id]
                 elif isinstance(a, ast.Constant) and isinstance(a.value, bool):
                     hfl[q] = a.value
-            stmts = _select(list(h.node.body), member, hfl)
-            # names of the two shifted views: X[:-1] is the earlier element of each adjacent pair, X[1:] the later one
-            role = {}
-            for a in stmts:
-                if isinstance(a, ast.Assign):
-                    tg, vs = a.targets[0], a.value
-                    pairs = list(zip(tg.elts, vs.elts)) if isinstance(tg, ast.Tuple) and isinstance(vs, ast.Tuple) \
-                        else [(tg, vs)]
-                    for t_, v_ in pairs:
-                        if isinstance(t_, ast.Name) and isinstance(v_, ast.Subscript):
-                            sl = norm(v_.slice)
-                            if sl == ':-1':
-                                role[t_.id] = 'earlier'
-                            elif sl == '1:':
-                                role[t_.id] = 'later'
-
-            def side(e):
-                if isinstance(e, ast.Name):
-                    return role.get(e.id)
-                if isinstance(e, ast.Subscript):
-                    return {':-1': 'earlier', '1:': 'later'}.get(norm(e.slice))
-                return None
-            for r in stmts:
-                if not (isinstance(r, ast.Return) and r.value is not None):
-                    continue
-                v, neg = r.value, False
-                if isinstance(v, ast.UnaryOp) and isinstance(v.op, ast.Not):
-                    v, neg = v.operand, True
-                if isinstance(v, ast.Call) and call_name(v) in ('any', 'all') and len(v.args) == 1 and \
-                        isinstance(v.args[0], ast.Compare) and len(v.args[0].ops) == 1:
-                    cmp_ = v.args[0]
-                    l, rr = side(cmp_.left), side(cmp_.comparators[0])
-                    if {l, rr} != {'earlier', 'later'}:
-                        raise AnalysisError(f'A14: unrecognised row comparison `{norm(cmp_)}`')
-                    op = type(cmp_.ops[0])
-                    inv = {ast.Lt: ast.GtE, ast.LtE: ast.Gt, ast.Gt: ast.LtE, ast.GtE: ast.Lt, ast.Eq: ast.NotEq,
-                           ast.NotEq: ast.Eq}
-                    if call_name(v) == 'any' and neg:
-                        op = inv[op]            # rejected when the comparison holds somewhere
-                    elif call_name(v) == 'all' and not neg:
-                        pass                    # kept when it holds everywhere
-                    else:
-                        raise AnalysisError(f'A14: unrecognised row predicate `{norm(r.value)}`')
-                    if l == 'later':
-                        kept = {ast.GtE: '<=', ast.Gt: '<', ast.LtE: '>=', ast.Lt: '>', ast.NotEq: '!=', ast.Eq: '='}
-                    else:
-                        kept = {ast.LtE: '<=', ast.Lt: '<', ast.GtE: '>=', ast.Gt: '>', ast.NotEq: '!=', ast.Eq: '='}
-                    return kept.get(op, '?')
-                break
+            r = _predicate_relation(h, member, hfl)
+            if r is not None:
+                return r
     return None
 
 
